@@ -214,6 +214,16 @@ def section_scale(k, a, b):
     return m
 
 
+NON_FINITE_BITS = 0x7FF0000000000000
+
+
+def has_non_finite(line):
+    for t in line.split():
+        if FLOAT_TOK.match(t) and (int(t[1:]) & NON_FINITE_BITS) == NON_FINITE_BITS:
+            return True
+    return False
+
+
 def line_eq(impl, model, tags, rtol, canon=None):
     """compare two output lines on the sections in `tags` (None = all). returns None or a reason"""
     si, sm = sections(impl), sections(model)
@@ -382,6 +392,12 @@ def examine(prop, stream, annot, impl, model, origin, collect):
         # difference on the state sections (model validation only)
         k1 = k2 = None
         for k in range(len(a)):
+            if has_non_finite(i[k]) and has_non_finite(m[k]):
+                # both sides have left the finite numbers (an infinite order at a net price of exactly 0, then NaN): from
+                # here the two languages' NaN conventions (`f64::max` ignores a NaN, comparisons are all false) decide, no
+                # property speaks about it, and the comparison of this case ends
+                collect.setdefault("run_stats", {})["comparison_ended_at_a_non_finite_amount"] = collect.get("run_stats", {}).get("comparison_ended_at_a_non_finite_amount", 0) + 1
+                break
             why = line_eq(i[k], m[k], stream.tags, stream.rtol, stream.canon)
             if why is not None:
                 k1 = (k, why)
